@@ -1,7 +1,7 @@
 """Rules added after the third round of independent mutations (DESIGN.md 12.8)."""
 from core import callee_path, last_field, rv_operands
 from cond import sources, branch_sources, controlling_sources, expr_key
-from rules.base import Result, where, line_of
+from rules.base import Result, where, line_of, param_of_type
 from rules.accounting import deep_root, operand_deep_root
 
 
@@ -1292,9 +1292,14 @@ def r_ctrl_geometry(F, V):
         if f:
             n += 1
             nc, en = f.get("next_ctrl", ""), f.get("end", "")
-            checks.append(("RawIterRange::new: next_ctrl = ctrl + Group::WIDTH", nc.endswith("::add(a1,c:%d:usize)" % W), nc[-60:], b, "the first group is loaded from ctrl, the next one lies exactly one group further"))
-            checks.append(("RawIterRange::new: end = ctrl + len", en.endswith("::add(a1,a3)"), en[-60:], b, "the range ends len control bytes after its start"))
-            checks.append(("RawIterRange::new: data = the data pointer argument", f.get("data") == "a2", f.get("data", "")[:40], b, "bit i of the first group belongs to data.next_n(i)"))
+            # the parameters are identified by their (pairwise distinct) types, not by position
+            pc, pd, pl = param_of_type(b, "*const u8"), param_of_type(b, "raw::Bucket<"), param_of_type(b, "usize")
+            if None in (pc, pd, pl):
+                R.undec("raw::RawIterRange::new: cannot identify the ctrl / data / len parameters by type (%s)" % [b.locals[q]["ty"]["s"] for q in range(1, b.arg_count + 1)])
+                return R
+            checks.append(("RawIterRange::new: next_ctrl = ctrl + Group::WIDTH", nc.endswith("::add(a%d,c:%d:usize)" % (pc, W)), nc[-60:], b, "the first group is loaded from ctrl, the next one lies exactly one group further"))
+            checks.append(("RawIterRange::new: end = ctrl + len", en.endswith("::add(a%d,a%d)" % (pc, pl)), en[-60:], b, "the range ends len control bytes after its start"))
+            checks.append(("RawIterRange::new: data = the data pointer argument", f.get("data") == "a%d" % pd, f.get("data", "")[:40], b, "bit i of the first group belongs to data.next_n(i)"))
     b = F.bodies.get("raw::FullBucketsIndices::next_impl")
     if b is not None:
         steps = {}
